@@ -9,6 +9,8 @@ Expression forms: constants (int/bool/None/str/tagged bytes) or
     ["obj"], ["obj", f]     obj_, obj_.f
     ["list", i]             list_[i]
     ["lit", tagged]         constant
+    ["lam", n1, n2, ...]    a plain Python callable  lambda ctx: ctx.n1.n2  (attribute access; integer steps index)
+    ["lamitem", n1, ...]    lambda ctx: ctx[n1][...]
     ["bin", op, a, b]  ["un", op, a]  ["fn", name, a]
 """
 import operator, hashlib, zlib
@@ -24,7 +26,7 @@ FUNCS = {"len": len, "sum": sum, "min": min, "max": max, "abs": abs}
 
 
 def is_expr(e):
-    return isinstance(e, list) and e and e[0] in ("this", "obj", "list", "bin", "un", "fn")
+    return isinstance(e, list) and e and e[0] in ("this", "obj", "list", "bin", "un", "fn", "lam", "lamitem")
 
 
 def mkexpr(e):
@@ -44,6 +46,22 @@ def mkexpr(e):
         for f in e[1:]:
             x = getattr(x, f) if isinstance(f, str) else x[f]
         return x
+    if k == "lam":
+        steps = list(e[1:])
+
+        def by_attribute(ctx):
+            for f in steps:
+                ctx = getattr(ctx, f) if isinstance(f, str) else ctx[f]
+            return ctx
+        return by_attribute
+    if k == "lamitem":
+        steps = list(e[1:])
+
+        def by_item(ctx):
+            for f in steps:
+                ctx = ctx[f]
+            return ctx
+        return by_item
     if k == "list":
         return C.list_[e[1]]
     if k == "fn":
@@ -62,7 +80,7 @@ def evalexpr(e, scope, obj=None, lst=None):
     k = e[0]
     if k == "lit":
         return untag(e[1])
-    if k == "this":
+    if k in ("this", "lam", "lamitem"):
         v = scope
         for f in e[1:]:
             v = v[f]
@@ -91,6 +109,11 @@ HASHES = {
     "sha256": lambda d: hashlib.sha256(d).digest(),
     "md5list": lambda d: list(hashlib.md5(d).digest()[:4]),
 }
+
+
+def is_named_pair(x):
+    """[name-or-None, recipe] as opposed to a bare recipe (kinds are capitalised or "name"; member names are lower case)"""
+    return isinstance(x, list) and len(x) == 2 and isinstance(x[1], list) and (x[0] is None or (isinstance(x[0], str) and not x[0][:1].isupper() and x[0] != "name"))
 
 
 def _members(ms):
@@ -187,7 +210,7 @@ def mk(r):
         cases = {(untag(x) if isinstance(x, dict) else x): mk(c) for x, c in a[1]}
         return C.Switch(mkexpr(a[0]), cases) if len(a) < 3 or a[2] is None else C.Switch(mkexpr(a[0]), cases, default=mk(a[2]))
     if k == "Select":
-        return C.Select(*_members([(None, x) if not (isinstance(x, list) and len(x) == 2 and (x[0] is None or isinstance(x[0], str)) and isinstance(x[1], list)) else x for x in a[0]]))
+        return C.Select(*_members([x if is_named_pair(x) else (None, x) for x in a[0]]))
     if k == "Optional":
         return C.Optional(mk(a[0]))
     if k == "Prefixed":
